@@ -49,6 +49,7 @@ pub trait Engine: Sized + 'static {
     fn params(bits: usize, cap: usize, ext: usize) -> Result<RangeParameters<Self::P>, ProofError>;
     /// forget per-case engine state (F: the compressed-point registry)
     fn reset_case();
+    fn proof_degree(p: &RangeProof<Self::P>) -> usize;
 }
 
 pub fn ext_of(ext: usize) -> ExtensionDegree {
@@ -111,6 +112,10 @@ impl Engine for R {
     }
 
     fn reset_case() {}
+
+    fn proof_degree(p: &RangeProof<RistrettoPoint>) -> usize {
+        p.extension_degree() as usize
+    }
 }
 
 impl Engine for F {
@@ -160,6 +165,10 @@ impl Engine for F {
 
     fn reset_case() {
         fp::reset_registry();
+    }
+
+    fn proof_degree(p: &RangeProof<FP>) -> usize {
+        p.extension_degree() as usize
     }
 }
 
